@@ -804,7 +804,9 @@ fn check_unit_tick(
         c08(ctx, "edrv.regen_out<=in", -ed.pwr_elec_prop_in.value <= -ed.pwr_mech_prop_out.value * (1.0 + 1e-9) + tol_p, format!("regen elec {:e} exceeds mech {:e}", ed.pwr_elec_prop_in.value, ed.pwr_mech_prop_out.value));
     }
     c08(ctx, "dyn_brake>=0", ed.pwr_mech_dyn_brake.value >= -tol_p, format!("dyn brake {:e}", ed.pwr_mech_dyn_brake.value));
-    if st.pwr_out.value >= 0.0 && p_req >= 0.0 {
+    // (decided by the demand put to the locomotive / consist alone - not by the unit's own reported output, which a
+    // stale dynamic-brake term would turn negative)
+    if p_req >= 0.0 {
         c08(ctx, "dyn_brake=0 unless braking", ed.pwr_mech_dyn_brake.value.abs() <= tol_p, format!("dyn brake {:e} with demand {:e}", ed.pwr_mech_dyn_brake.value, st.pwr_out.value));
     }
     if ed.pwr_mech_dyn_brake.value > tol_p {
